@@ -138,5 +138,5 @@ def run(ck):
                     vals.add(const_int(op_const(s["rv"]["a"])))
         ck.ob("CONST", f.path, "chunk-sizes-divide-64", vals and all(v and 64 % v == 0 for v in vals), "chunk sizes %s all divide 64" % sorted(vals), f.loc())
 
-    narrowing_len_sweep(ck, crate("rs", "concordium_base"), re.compile(r"concordium_base::encrypted_transfers::"), re.compile(r"verify[a-z_0-9]*(::\\{closure#\\d+\\})*$"))
-    eq_polarity_sweep(ck, crate("rs", "concordium_base"), re.compile(r"concordium_base::encrypted_transfers::"), re.compile(r"verify[a-z_0-9]*(::\\{closure#\\d+\\})*$"))
+    narrowing_len_sweep(ck, crate("rs", "concordium_base"), re.compile(r"concordium_base::encrypted_transfers::"), re.compile(r"verify[a-z_0-9]*(::\{closure#\d+\})*$"))
+    eq_polarity_sweep(ck, crate("rs", "concordium_base"), re.compile(r"concordium_base::encrypted_transfers::"), re.compile(r"verify[a-z_0-9]*(::\{closure#\d+\})*$"))
